@@ -255,6 +255,12 @@ def run(F, rep, tier):
     streamid.slp_rule(F, rep, 'fragmentation.stream')
     accounting_rule(F, rep)
     monotone_frames_rule(F, G, rep)
+    # a frame is completed by the event stream itself (Frame End, or below 3.0 the next frame's first event): read() owns only
+    # the closure of the very last pre-3.0 frame. A frame left open until that final close is right in the one-shot game and
+    # unpadded in every intermediate incremental state
+    from props import C04
+    import model as _model
+    C04.bracketing_rule(F, G, rep, _model.Model(F, rep, want=("with_capacity", "push_null", "read_push")), "completion")
     C13.forwarders(F, rep)
     # "the frames completed so far equal the corresponding prefix of the final game" is observed through the in-progress row
     # view: the mutable transpose_one family reads each row field from the same-named column at the row index, and a frame's
